@@ -98,6 +98,11 @@ CLAIMED["C18"] = dict(
     note="Trusted: Lean kernel; extract.py; quality of the OS CSPRNG and of pyca key generation cannot be exhibited by a theorem (partial in that respect; sampled statistically). Distinctness of CEK / GCM-KW IV / p2s draws is covered by the tape runs and the same argument as c18_distinct_ivs, stated as theorem for the IV.",
     technique="Lean 4 proof (draw discipline over a randomness tape) + tape runs + statistics",
     design="7/C18")
+CLAIMED["C16"] = dict(
+    text="Lean 4: c16_jws_compact and c16_jwt_decode_jws — for EVERY octet string offered as a compact JWS / JWT, every well-formed registry (its alg entry demands a string, rows consistent: kernel-decided for the regenerated tables, c16_default_registry_wf) and every well-formed key, key set or callable, the model of jws.deserialize_compact / jwt.decode either returns or fails with a class derived from JoseError or ValueError (Doc), under the primitive error contracts PrimErrs; built compositionally (Doc.bind, Doc.tryCatch modelling the except clauses exactly) from lemmas for base64url, header decoding, crit/registry/strict header checks on JSON objects, get_alg, key resolution, check_use/check_key_op and each per-algorithm verify wrapper (the kind-mismatch TypeError/AttributeError branches are proved unreachable after check_key_type). The JWE, JSON and RFC 7797 entry points are decided by the class-differential: the Lean models of all six entry points must predict the implementation's exception class on grammar-generated, mutated, authenticated-but-malformed and random inputs, and the implementation-side oracle checks isinstance(JoseError|ValueError) on ~10^5 inputs per run.",
+    note="Trusted: Lean kernel; PrimErrs (json, hmac, pyca verify raise only documented classes in-domain); model checked by differential. JSON-serialization dicts are assumed to have the documented shape. A Doc theorem for the JWE and JSON entry points is not yet proved (partial): they are covered by the model-vs-implementation class comparison and the fuzz oracle.",
+    technique="Lean 4 proof (compositional exception-class analysis over the total Python-fragment model) + class differential + grammar/mutation fuzz oracle",
+    design="7/C16")
 PENDING = {}
 
 
